@@ -123,3 +123,16 @@ func mkdirWork(prefix string) string {
 	}
 	return d
 }
+
+// saidSaved tells whether a `wtf save` / `save-pipeline` run reported success. Both commands end with
+// status 0 either way, so the report is the text: a line that speaks of success and none that speaks of
+// an error or failure. (Matching today's exact sentence "... saved successfully!" was a false alarm
+// against a tree that words a replacement as "updated successfully", DESIGN section 10.) An empty
+// okLine means the run under test is not a save (always true, as strings.Contains(s, "") was).
+func saidSaved(stdout, okLine string) bool {
+	if okLine == "" {
+		return true
+	}
+	low := strings.ToLower(stdout)
+	return strings.Contains(low, "success") && !strings.Contains(low, "error saving") && !strings.Contains(low, "failed to save") && !strings.Contains(low, "could not save")
+}
